@@ -76,13 +76,9 @@ class UnicodeForPython3(str):
             # character would otherwise end up in the listing as is.
             return "u" + repr(utf8_value)
 
-        # Turn the unicode character into its Unicode code point,
-        # but strip of the leading "0x".
-        stripped_utf8 = utf8_value[len("0x") :]
-        unicode_codepoint = "".join(
-            (c if is_ascii(c) else hex(ord(c)) for c in stripped_utf8)
-        )
-        return rf"""u'\u{unicode_codepoint}'"""
+        # Show it the way Python 2 does: non-ASCII characters as \x.., \u....
+        # or \U........ escapes and, as above, no raw control characters.
+        return "u" + ascii(utf8_value)
 
     def __str__(self) -> str:
         try:
